@@ -67,4 +67,13 @@ def matchJudge (rs : RefRules) (path : Key) (impl : Conf) : Option String :=
     -- classify: a rule that should apply is not applied / a rule that should not is
     some "MatchStorageRule/not-fieldwise-longest-prefix"
 
+/-! ### the abstract state: a finite map prefix ↦ settings, updated by the API calls -/
+
+def denoteStep (m : Key → Option Conf) : Op → Key → Option Conf
+  | .add k c => if k = [] then m else fun q => if q = k then some c else m q
+  | .del k => fun q => if q = k then none else m q
+
+/-- what a history of API calls means: the map after replaying it from the empty configuration -/
+def denote (ops : List Op) : Key → Option Conf := ops.foldl denoteStep (fun _ => none)
+
 end SwV.Spec.C23
